@@ -3,6 +3,8 @@ C05 — property theorems about the connection machine `TornadoModel.C05.Model` 
 pipelines, all delegate scripts, any fuel).
 -/
 import TornadoModel.C05.Inv
+import TornadoModel.C05.Data
+import TornadoModel.C05.Close
 namespace TornadoModel.C05
 open Spec
 
@@ -82,16 +84,100 @@ example : gotHeaders 0 (trace exCfg [.feed 15, .respond, .eof]) = true ∧
     countClose 0 (trace exCfg [.feed 15, .respond, .eof]) = 0 ∧
     (exec exCfg [.feed 15, .respond, .eof]).pc = .done := by decide
 
-/-! ### stated, not proved (checked by the correspondence + oracle only) -/
+/-! ### the data clause -/
 
-/-- delivered data never exceeds the sent body and equals it when `finish` was delivered -/
-def data_prefix_goal : Prop :=
+/-- **Delivered data is a prefix of the sent body, and the whole body on `finish`.**  For every configuration and
+event sequence: the sizes of the chunks handed to the delegate of request `i` add up to at most the payload of
+the body that was sent for it, and to exactly that payload when `finish i` was delivered
+(invariant `exec_d`: delivered + payload of the reads still to do = payload sent, as long as the response has
+not been written). -/
+theorem data_prefix :
   ∀ (cfg : Cfg) (evs : List Ev) (i : Nat) (r : Request), cfg.reqs[i]? = some r →
-    dataOk i (trace cfg evs) ((r.segs.map (fun s => match s with | .data n => n | _ => 0)).sum) = true
+    dataOk i (trace cfg evs) ((r.segs.map (fun s => match s with | .data n => n | _ => 0)).sum) = true := by
+  intro cfg evs i r hr
+  have e : (r.segs.map (fun s => match s with | .data n => n | _ => 0)).sum = dsum r.segs := dsum_eq r.segs
+  rw [e, dataOk_iff]
+  have hD : D cfg i = dsum r.segs := by simp [D, Cfg.req?, hr]
+  have h := (exec_d cfg evs).to2
+  unfold trace
+  generalize exec cfg evs = st at h
+  rcases Nat.lt_trichotomy i st.cur with hlt | heq | hgt
+  · have := h.1.past i hlt; rwa [hD] at this
+  · subst heq; have := h.2; rwa [hD] at this
+  · have := h.1.future i hgt
+    exact ⟨by omega, Or.inl this.2⟩
 
-/-- after the stream is closed and the application's awaitables settle, the serving loop is over -/
-def close_terminates_goal : Prop :=
+/-- in terms of the numbers themselves -/
+theorem delivered_le_sent (cfg : Cfg) (evs : List Ev) (i : Nat) (r : Request) (hr : cfg.reqs[i]? = some r) :
+    delivered i (trace cfg evs) ≤ dsum r.segs ∧
+    (0 < countFinish i (trace cfg evs) → delivered i (trace cfg evs) = dsum r.segs) := by
+  have h := data_prefix cfg evs i r hr
+  have e : (r.segs.map (fun s => match s with | .data n => n | _ => 0)).sum = dsum r.segs := dsum_eq r.segs
+  rw [e, dataOk_iff] at h
+  exact ⟨h.1, fun hf => by rcases h.2 with h0 | h0 <;> omega⟩
+
+-- non-vacuity: a request with a body, cut in the middle (2 of 5 bytes delivered), and served completely (5 of 5)
+example : exCfg.reqs[0]? = some exReq ∧ dsum exReq.segs = 5 ∧
+    delivered 0 (trace exCfg [.feed 12, .eof]) = 2 ∧ countFinish 0 (trace exCfg [.feed 12, .eof]) = 0 ∧
+    delivered 0 (trace exCfg [.feed 12, .feed 3]) = 5 ∧ countFinish 0 (trace exCfg [.feed 12, .feed 3]) = 1 := by
+  decide
+
+/-! ### termination -/
+
+/-- **The fuel of the model is always enough**: the coroutine never runs out of fuel (`pc = stuck`, `fuelOut`
+are unreachable), for every configuration and event sequence (ranking function `rank0 + slack`, `go_rank`). -/
+theorem never_stuck (cfg : Cfg) (evs : List Ev) : (exec cfg evs).pc ≠ .stuck := (exec_good cfg evs).ns
+
+/-- **Ranking function.**  In every reachable state whose stream is closed and whose serving loop is not over,
+settling the application's awaitables (`resH`, `resD`) strictly decreases the measure `M`
+(= rank of the label the coroutine resumes at + `slack` of the read buffer; `M = 0` iff `pc = done`),
+which is bounded by `fuelFor cfg`. -/
+theorem settle_decreases (cfg : Cfg) (evs : List Ev) (hc : (exec cfg evs).s.closed = true)
+    (hd : (exec cfg evs).pc ≠ .done) :
+    M cfg (exec cfg (evs ++ [.resH, .resD])) < M cfg (exec cfg evs) ∧ M cfg (exec cfg evs) ≤ fuelFor cfg := by
+  have g := exec_good cfg evs
+  have hx : exec cfg (evs ++ [.resH, .resD]) = step cfg (step cfg (exec cfg evs) .resH) .resD := by
+    simp [exec, List.foldl_append]
+  rw [hx]
+  generalize exec cfg evs = st at *
+  have g1 := step_good cfg st .resH g
+  have m1 := resH_M cfg st g hc
+  have m2 := resD_M cfg _ g1.1 (g1.2 hc)
+  refine ⟨?_, ?_⟩
+  · rcases g.cl hc with e | e | e
+    · exact absurd e hd
+    · have := m1.2 e; omega
+    · have h1 : step cfg st .resH = st := by simp [step, e]
+      rw [h1] at m2 ⊢
+      exact m2.2 e
+  · have := g.rk
+    have := slack_le st.s
+    unfold M; split <;> omega
+
+/-- **Closing completes.**  From every reachable state: once every server connection is closed
+(`close_all_connections`) and the awaitables returned by the application settle, the serving loop reaches `done`
+— within `fuelFor cfg` rounds (`settle_done`: `M ≤ fuelFor cfg` and each round decreases `M`). -/
+theorem close_terminates :
   ∀ (cfg : Cfg) (evs : List Ev),
-    (exec cfg (evs ++ .closeall :: (List.replicate (fuelFor cfg) [Ev.resH, Ev.resD]).flatten)).pc = .done
+    (exec cfg (evs ++ .closeall :: (List.replicate (fuelFor cfg) [Ev.resH, Ev.resD]).flatten)).pc = .done := by
+  intro cfg evs
+  have g := exec_good cfg evs
+  unfold exec at *
+  rw [List.foldl_append, List.foldl_cons]
+  generalize List.foldl (step cfg) (init cfg) evs = st at g
+  have g1 := step_good cfg st .closeall g
+  refine settle_done cfg _ _ g1.1 (closeall_closed cfg st g) ?_
+  have := g1.1.rk
+  have := slack_le (step cfg st .closeall).s
+  unfold M; split <;> omega
+
+-- non-vacuity: an application whose `data_received` is asynchronous; the stream is closed while the loop waits for
+-- it (`awaitD`), the loop is not over until the awaitable settles, and the measure is 10 and drops to 0
+def exCfgA : Cfg :=
+  { exCfg with reqs := [{ exReq with sc := { exReq.sc with d := .async } }] }
+example : (exec exCfgA [.feed 12]).pc = .awaitD ∧
+    (exec exCfgA [.feed 12, .closeall]).pc = .awaitD ∧ (exec exCfgA [.feed 12, .closeall]).s.closed = true ∧
+    M exCfgA (exec exCfgA [.feed 12, .closeall]) = 10 ∧
+    (exec exCfgA ([.feed 12, .closeall] ++ [.resH, .resD])).pc = .done := by decide
 
 end TornadoModel.C05
